@@ -3,8 +3,8 @@
 package static
 
 import (
-	"encoding/json"
 	"context"
+	"encoding/json"
 	"fmt"
 	"reflect"
 	"sort"
